@@ -64,8 +64,20 @@ var (
 	hookMode  int32 // 0 none, 1 delays at sealed
 )
 
+// handoverRelease, when set, is closed by the hook at the first conn.write.written.
+var handoverRelease atomic.Pointer[chan struct{}]
+
 func installHook() {
 	verifhook.Install(func(point string) {
+		if point == "conn.write.written" {
+			// handover rounds: the plaintext M4 is on the wire, the encrypter is not yet activated: release the
+			// other writers now and give them time to arrive
+			if ch := handoverRelease.Swap(nil); ch != nil {
+				close(*ch)
+				time.Sleep(2 * time.Millisecond)
+			}
+			return
+		}
 		if point != "conn.write.sealed" || atomic.LoadInt32(&hookMode) == 0 {
 			return
 		}
@@ -104,7 +116,7 @@ func runRound(seed int64, transport string, writers, writes int, delays bool) ro
 	var hc *hap.Connection
 	var captured func() []byte
 	var cleanup func()
-	switch transport {
+	switch strings.TrimSuffix(transport, "+handover") {
 	case "tcp":
 		ln, err := net.Listen("tcp", "127.0.0.1:0")
 		if err != nil {
@@ -133,7 +145,7 @@ func runRound(seed int64, transport string, writers, writes int, delays bool) ro
 	default:
 		sc := script.New(nil)
 		sc.KeepReads = false
-		if transport == "slow" {
+		if strings.HasPrefix(transport, "slow") {
 			sc.MaxWrite = 100 + rnd.Intn(900)
 		}
 		hc, _ = hcx.ServerConn(sc, ctx, secret)
@@ -142,10 +154,13 @@ func runRound(seed int64, transport string, writers, writes int, delays bool) ro
 	}
 	defer cleanup()
 	// as after pair-verify: M4 goes out in plaintext, then the connection reads
-	hc.Write(m4)
-	hc.SetReadDeadline(time.Now().Add(time.Millisecond))
-	hc.Read(make([]byte, 16))
-	hc.SetReadDeadline(time.Time{})
+	handover := strings.HasSuffix(transport, "+handover")
+	if !handover {
+		hc.Write(m4)
+		hc.SetReadDeadline(time.Now().Add(time.Millisecond))
+		hc.Read(make([]byte, 16))
+		hc.SetReadDeadline(time.Time{})
+	}
 
 	if delays {
 		atomic.StoreInt32(&hookMode, 1)
@@ -187,7 +202,17 @@ func runRound(seed int64, transport string, writers, writes int, delays bool) ro
 			}
 		}(w)
 	}
-	close(start)
+	if handover {
+		// the writers are released while the M4 write is between its socket write and the activation of the
+		// encrypter; whatever they write must still come out encrypted, after M4
+		handoverRelease.Store(&start)
+		hc.Write(m4)
+		if ch := handoverRelease.Swap(nil); ch != nil {
+			close(*ch) // the hook point was not reached (it must be, with the verif tag): release anyway
+		}
+	} else {
+		close(start)
+	}
 	wg.Wait()
 	atomic.StoreInt32(&hookMode, 0)
 	raw := captured()
@@ -322,7 +347,11 @@ func plans(rnd *rand.Rand, n int) []plan {
 		if i%4 == 0 {
 			w = 8
 		}
-		out = append(out, plan{tr[i%3], w, 5 + rnd.Intn(20), i%2 == 0})
+		t := tr[i%3]
+		if i%5 == 4 {
+			t += "+handover"
+		}
+		out = append(out, plan{t, w, 5 + rnd.Intn(20), i%2 == 0})
 	}
 	return out
 }
@@ -335,7 +364,7 @@ func main() {
 	r := vf.Start("C08", "exploration")
 	r.SetRule("a round = (transport tcp|scripted|slow socket, 2..16 writer goroutines, 5..24 writes each of 1..3 frames, natural scheduling or PRNG delays between sealing and " +
 		"the socket write); the captured stream is checked offline; non-trivial = a round with overlapping Write calls; distinct = distinct arrival orders of writer ids. " +
-		"The same workload runs under the race detector; reports are filtered to the write path")
+		"The same workload runs under the race detector; reports are filtered to the write path. Harness B: a real transport with 4 subscribed controllers issuing GETs while application goroutines change the subscribed values")
 	r.Assume("refctl framing follows the specification; one net.Conn.Write call is contiguous on the wire (Go's fd write lock)")
 	installHook()
 	hookSeed = uint64(r.Seed) * 0x9E3779B97F4A7C15
@@ -345,11 +374,15 @@ func main() {
 		res := runRound(r.Seed*100003+int64(i), p.transport, p.writers, p.writes, p.delays)
 		record(r, res, p, "plain")
 	}
-	// race detector child
+	// harness B: real transport, responses and notifications meeting on every connection
+	fullStack(r, "plain", r.Pick(2, 12))
+	// race detector child (harness A and B)
 	runRace(r)
 	r.Floor("rounds_with_overlapping_writes", int(r.Counter("rounds_with_overlapping_writes")), rounds/2)
 	r.Floor("overlapping_write_pairs", int(r.Counter("overlapping_write_pairs")), 2000)
 	r.Floor("distinct arrival orders", r.DistinctN("arrival_order"), rounds/4)
+	r.Floor("fullstack_events_between_request_and_response", int(r.Counter("fullstack_events_between_request_and_response")), 100)
+	r.Floor("fullstack_frames_decrypted_in_order", int(r.Counter("fullstack_frames_decrypted_in_order")), 2000)
 	r.Finish()
 }
 
@@ -389,6 +422,7 @@ func record(r *vf.Run, res roundResult, p plan, build string) {
 
 type childOut struct {
 	Plans   []plan        `json:"-"`
+	FS      []fsResult    `json:"fullstack"`
 	Results []roundResult `json:"results"`
 	P       []struct {
 		Transport string
@@ -420,6 +454,9 @@ func raceChild() {
 			Writes    int
 			Delays    bool
 		}{p.transport, p.writers, p.writes, p.delays})
+	}
+	for i := 0; i < 1+rounds/200; i++ {
+		out.FS = append(out.FS, fullStackRound(seed*977+int64(i), 4, 300, 200, filepath.Dir(os.Args[4])))
 	}
 	b, _ := json.Marshal(out)
 	ioutil.WriteFile(os.Args[4], b, 0o644)
@@ -460,6 +497,21 @@ func runRace(r *vf.Run) {
 	for i, res := range co.Results {
 		p := plan{co.P[i].Transport, co.P[i].Writers, co.P[i].Writes, co.P[i].Delays}
 		record(r, res, p, "race")
+	}
+	for _, fr := range co.FS {
+		r.Eval()
+		r.Count("fullstack_rounds_race", 1)
+		if fr.Sig == "inconclusive" {
+			r.Inconclusive("harness B (race build): " + fr.What)
+			continue
+		}
+		r.Count("fullstack_responses", int(fr.Responses))
+		r.Count("fullstack_events", int(fr.Events))
+		r.Count("fullstack_frames_decrypted_in_order", int(fr.Frames))
+		r.Count("fullstack_events_between_request_and_response", int(fr.EventsWhilePending))
+		if fr.Sig != "" {
+			r.Violation(fr.Sig, fr.What, fr.Witness)
+		}
 	}
 	// race reports
 	logs, _ := filepath.Glob(filepath.Join(dir, "race.log.*"))
